@@ -505,7 +505,7 @@ class Interp:
         if self.cur_state is not None:
             d.setdefault("facts", self.cur_state.facts)
             d["ver"] = dict(self.cur_state.ver)
-            d["lens"] = {k: v for k, v in self.cur_state.env.items() if k[1] and k[1][-1] == "len"}
+            d["lens"] = {self.canon(self.cur_state, k): v for k, v in self.cur_state.env.items() if k[1] and k[1][-1] == "len"}
         e = Effect(kind, node.gid, idx, node, **d)
         self.effects.setdefault((node.gid, idx), []).append(e)
         return e
